@@ -300,7 +300,9 @@ def main():
             configure_logging(config)
         except ConfigError as e:
             logging.error(f"Config error: {e}")
-            print(json.dumps(ask(f"config error: {e}")))
+            # PostToolUse is advisory only: never answer it with a permission decision
+            if input_data.get("hook_event_name") != "PostToolUse":
+                print(json.dumps(ask(f"config error: {e}")))
             return
 
         # Detect hook event type (Claude Code only)
